@@ -146,6 +146,8 @@ def run_model(name, queries, timeout=1200):
     exe = os.path.join(VERIF, "ocaml", "gen", name)
     r = sh([exe], timeout=timeout, input=queries)
     if r.returncode != 0:
+        os.makedirs(OUT, exist_ok=True)
+        open(os.path.join(OUT, "last_failed_queries.txt"), "w").write(queries)
         raise Fail("model driver %s failed: %s" % (name, r.stderr[-2000:]))
     ans = {}
     for line in r.stdout.splitlines():
